@@ -41,7 +41,7 @@ def op_argv(op, knobs, load_argv=None):
     """argv (with {db}) for an op name; step name for mutating ops else None."""
     s, j = knobs["thresholds"]
     g = knobs["grid_mm"]
-    ref = knobs.get("reference_mm")
+    ref = knobs.get("reference_%s_mm" % op, knobs.get("reference_mm")) if op in ("rise", "recession") else None
     sd = env.repo_path("spowtd", "test", "sample_data")
     par = os.path.join(sd, "%s_parameters.yml" % knobs.get("parameters", "peatclsm"))
     if op == "classify":
@@ -334,6 +334,7 @@ class Trial:
         self.states_seen = set()
         self.view = self.db
         self.deferred = False
+        self.last_twin_failed = False
 
     # -- helpers ----------------------------------------------------------
     def logline(self, *parts):
@@ -366,11 +367,25 @@ class Trial:
             self.knobs = workload.gen_knobs(rng, self.spec)
             k = self.knobs
             k["parameters"] = rng.choice(["peatclsm", "spline"])
-            if k.pop("reference", None) == "on_grid" and self.spec["kind"] == "synthetic":
-                z_ref = self.spec["z_base"] + rng.uniform(3, 25) * self.spec["j0"] * self.spec["dt"] / 3600.0
-                k["reference_mm"] = round(z_ref / k["grid_mm"]) * k["grid_mm"]
-            else:
-                k["reference_mm"] = None
+            k.pop("reference", None)
+            # the reference level is an argument of rise and of recession separately: either, both or
+            # neither may be given one (a tree in which one curve's origin leaks into the other's only
+            # shows when exactly one of them is)
+            k["reference_rise_mm"] = k["reference_recession_mm"] = None
+            if self.spec["kind"] == "synthetic":
+                jd0 = self.spec["j0"] * self.spec["dt"] / 3600.0
+
+                def on_grid():
+                    z_ref = self.spec["z_base"] + rng.uniform(2, 14) * jd0
+                    return round(z_ref / k["grid_mm"]) * k["grid_mm"]
+
+                mode = rng.choices(["none", "rise", "recession", "both_same", "both"], weights=[4, 2, 2, 1, 1])[0]
+                if mode in ("rise", "both"):
+                    k["reference_rise_mm"] = on_grid()
+                if mode in ("recession", "both"):
+                    k["reference_recession_mm"] = on_grid()
+                if mode == "both_same":
+                    k["reference_rise_mm"] = k["reference_recession_mm"] = on_grid()
         if self.fault_rate is None:
             self.fault_rate = rng.choice([0.0, 0.3, 0.5, 0.5, 0.7])
         if self.layers is None:
@@ -451,6 +466,7 @@ class Trial:
         else:
             twin_ex, post = twin      # sweeps: same pre-state files, same op => same twin
         t_out = twin_ex.outcome
+        self.last_twin_failed = not t_out.ok
         if fault == "draw":
             fault = self.draw_fault(twin_ex) if self.rng.random() < self.fault_rate else None
         pre_raw = None
@@ -687,6 +703,21 @@ class Trial:
             return rng.choice(choices)
         return "load-again" if getattr(self, "loaded_ok", True) else "simulate-rise"
 
+    def _drop_unusable_reference(self, op):
+        """If `rise -r X` / `recession -r X` was refused fault-free although its
+        prerequisites are complete (X is not on the assembled curve), later
+        attempts of that step go without -r, so that the history still makes
+        progress.  The refused attempt stays in the history as a failing attempt."""
+        if op not in ("rise", "recession"):
+            return
+        key = "reference_%s_mm" % op
+        if self.knobs.get(key) is None or op in self.acked:
+            return
+        if all(p in self.acked for p in PREREQ[op]) and self.last_twin_failed:
+            self.knobs[key] = None
+            self.stats["reference_level_dropped_after_refusal"] += 1
+            self.logline("knob", key, "-> None")
+
     def run_history(self):
         rng = self.rng
         self.draw_setup()
@@ -705,6 +736,7 @@ class Trial:
             argv = op_argv(op, self.knobs, self.load_argv)
             _ex, retry = self.do_op(op, argv, "draw")
             position += 1
+            self._drop_unusable_reference(op)
             if retry is not None and rng.random() < 0.7:
                 self.do_op(op, argv, None, expect=retry)
                 position += 1
@@ -712,6 +744,9 @@ class Trial:
         for s in CANON_ORDER:
             if s not in self.acked:
                 self.do_op(s, op_argv(s, self.knobs, self.load_argv), None)
+                self._drop_unusable_reference(s)
+                if s not in self.acked and s in ("rise", "recession"):
+                    self.do_op(s, op_argv(s, self.knobs, self.load_argv), None)
         self.stats["histories"] += 1
         if len(self.acked) == len(STEPS):
             self.stats["histories_all_steps_completed"] += 1
@@ -780,7 +815,7 @@ def sweep(seed, directory, step, prefix_steps, spec=None, knobs=None, layers=("A
     if field or size:
         # large data: keep the grid fine and the thresholds nominal so that every step has thousands of rows
         trial.knobs["grid_mm"] = 1.0
-        trial.knobs["reference_mm"] = None
+        trial.knobs["reference_rise_mm"] = trial.knobs["reference_recession_mm"] = None
         if field:
             trial.knobs["thresholds"] = [8.0, 5.0]
         else:
